@@ -31,10 +31,20 @@ Rewrite rules (each application is counted per function and reported in the evid
   R2  `panic!(..)`, `unimplemented!(..)`, `unreachable!(..)` -> `vpanic()`  (requires false: panic
       freedom becomes an obligation); message arguments of `assert!(c, "..")` dropped; `debug_assert!`
       -> `assert!`; `assert_eq!(a, b)` -> `assert!(a == b)`
-  R3  attributes (`#[inline..]`, `#[derive..]`, `#[serde..]`) and doc comments dropped
+  R3  attributes (`#[inline..]`, `#[derive..]`, `#[serde..]`) and doc comments dropped (of a derive list
+      only `Clone`/`Copy` are kept on extracted structs/enums)
+  R4  `write!(f, "{}", e)` -> `fmt::sink(f, e)` (prelude: appends the rendering of `e`, a char or a
+      String, to the formatter's ghost output); any other `write!`/`writeln!` -> `fmt::sink_other(f)`
+      (unspecified output). Trusts core::fmt to render a char / String as itself.
   R8  the surrounding `impl Trait for T` header is not copied: the method is emitted where the
       template places it (an inherent impl); `as name` renames the fn identifier in its own header
   R9  `ret r`: the return type `-> T` becomes `-> (r: T)` so that clauses can name the result
+  R14 `closure N params (a: T, b: T)`: type annotations are added to the un-annotated parameters of a closure
+      (names must match the source exactly; the types are the ones rustc infers)
+  R13 a `use crate::path::Name;` statement inside a function body is dropped (the unit is one module and
+      its prelude declares the seam type of that name)
+  R12 `loop N iter NAME`: a `for PAT in EXPR` header becomes `for PAT in NAME: EXPR` (Verus syntax naming
+      the ghost iterator so an invariant can mention the iteration count; no executable effect)
   R11 the visibility qualifier (`pub`, `pub(crate)`) of an extracted fn / struct header is dropped: the
       unit is a single module, so visibility has no semantic effect (Verus otherwise refuses contracts
       over private fields on public functions)
@@ -306,6 +316,20 @@ def apply_rewrites(body, counts):
         b = body[parts[1][0]:parts[1][1]].strip()
         edits.append((s, c + 1, "assert!(%s == %s)" % (a, b)))
         counts["R2"] = counts.get("R2", 0) + 1
+    # R4 `write!(f, "{}", e)` -> `fmt::sink(f, e)` ; any other format string -> `fmt::sink_other(f)`
+    for s_, o, c, name in find_macro_calls(body, mask, ("write", "writeln")):
+        parts = split_top_args(body, mask, o + 1, c)
+        args = [body[a:b].strip() for a, b in parts]
+        if len(args) == 3 and args[1] == '"{}"' and name == "write":
+            edits.append((s_, c + 1, "fmt::sink(%s, %s)" % (args[0], args[2])))
+        else:
+            edits.append((s_, c + 1, "fmt::sink_other(%s)" % args[0]))
+        counts["R4"] = counts.get("R4", 0) + 1
+    # R13 `use crate::...;` inside a body: dropped (the unit's prelude provides the name)
+    for m in re.finditer(r"\buse\s+crate::[\w:]+\s*;", body):
+        if mask[m.start()]:
+            edits.append((m.start(), m.end(), ""))
+            counts["R13"] = counts.get("R13", 0) + 1
     # R3 doc comments / attributes inside bodies (rare): drop `#[inline...]`, keep everything else
     for m in re.finditer(r"#\[(inline|allow|cfg_attr)[^\]]*\]\s*", body):
         if mask[m.start()]:
@@ -433,21 +457,44 @@ def splice(body, sections, fname):
     """body: `{...}` text (already rewritten). sections: list of (kind, arg, text)."""
     mask = code_mask(body)
     inserts = []  # (pos, text)
+    replaces = []  # (start, end, text) - header-only replacements (R14)
     loops = None
     closures = None
     for kind, arg, text in sections:
         if kind == "loop":
             loops = loops or loop_headers(body, mask)
+            itname = None
+            if "|" in arg:
+                arg, itname = arg.split("|")
             k = int(arg)
             if k >= len(loops):
                 raise ExtractError("%s: loop %d not found (function has %d loops)" % (fname, k, len(loops)))
             inserts.append((loops[k][1], "\n" + text + "\n"))
+            if itname:
+                # R12: name the ghost iterator of a `for PAT in EXPR` header: `for PAT in NAME: EXPR`
+                hdr = body[loops[k][0]:loops[k][1]]
+                mm = re.match(r"for\s+.*?\s+in\s+", hdr, re.S)
+                if not mm:
+                    raise ExtractError("%s: loop %d is not a for loop" % (fname, k))
+                inserts.append((loops[k][0] + mm.end(), itname + ": "))
         elif kind == "closure":
             closures = closures or closure_headers(body, mask)
+            params = None
+            if "|" in arg:
+                arg, params = arg.split("|", 1)
             k = int(arg)
             if k >= len(closures):
                 raise ExtractError("%s: closure %d not found (function has %d)" % (fname, k, len(closures)))
             inserts.append((closures[k][1], " " + text + " "))
+            if params is not None:
+                # R14: type annotations for un-annotated closure parameters: `|a, b|` -> `|a: T, b: T|`.
+                # The names must be exactly the ones in the source, in order.
+                hdr = body[closures[k][0]:closures[k][1]]
+                src_names = [x.strip() for x in hdr.strip("|").split(",")]
+                new_names = [x.split(":")[0].strip() for x in params.split(",")]
+                if src_names != new_names:
+                    raise ExtractError("%s: closure %d parameters are %r, contract expects %r" % (fname, k, src_names, new_names))
+                replaces.append((closures[k][0], closures[k][1], "|" + params + "|"))
         elif kind == "hint":
             m = re.match(r'^(start|end)$', arg)
             if m:
@@ -491,13 +538,19 @@ def splice(body, sections, fname):
             raise ExtractError("%s: bad hint position %r" % (fname, arg))
         else:
             raise ExtractError("bad section " + kind)
-    inserts.sort(key=lambda t: t[0])
+    events = [(pos, 0, pos, text) for pos, text in inserts] + [(e, -1, s_, text) for s_, e, text in replaces]
+    events.sort(key=lambda t: (t[0], t[1]))
     out = []
     last = 0
-    for pos, text in inserts:
-        out.append(body[last:pos])
-        out.append(text)
-        last = pos
+    for pos, kind, start, text in events:
+        if kind == -1:
+            out.append(body[last:start])
+            out.append(text)
+            last = pos
+        else:
+            out.append(body[last:pos])
+            out.append(text)
+            last = pos
     out.append(body[last:])
     return "".join(out)
 
@@ -535,7 +588,7 @@ def parse_block(lines):
     spec = []
     cur = None
     for ln in lines:
-        m = re.match(r"^\s*(spec|loop \d+|closure \d+|hint [^:]*?):\s?(.*)$", ln)
+        m = re.match(r"^\s*(spec|loop \d+(?: iter \w+)?|closure \d+(?: params \([^)]*\))?|hint [^:]*?):\s?(.*)$", ln)
         starts_new = False
         if m:
             head = m.group(1)
@@ -550,9 +603,11 @@ def parse_block(lines):
             if head == "spec":
                 cur = ("spec", None, [rest])
             elif head.startswith("loop"):
-                cur = ("loop", head.split()[1], [rest])
+                hp = head.split()
+                cur = ("loop", hp[1] + ("|" + hp[3] if len(hp) > 3 else ""), [rest])
             elif head.startswith("closure"):
-                cur = ("closure", head.split()[1], [rest])
+                pm = re.search(r"params \(([^)]*)\)", head)
+                cur = ("closure", head.split()[1] + ("|" + pm.group(1) if pm else ""), [rest])
             else:
                 cur = ("hint", head[5:].strip(), [rest])
             sections.append(cur)
@@ -626,7 +681,11 @@ def process(template_path, repo, meta):
         S = sources[path]
         if m.group(1) == "struct":
             hs, o, c = S.find_struct(fields[1])
-            hdr = strip_attrs(strip_noncode(S.src, S.mask, hs, o))
+            raw = strip_noncode(S.src, S.mask, hs, o)
+            hdr = strip_attrs(raw)
+            keep = [d for d in ("Clone", "Copy") if re.search(r"#\[derive\([^\]]*\b%s\b" % d, raw)]
+            if keep:
+                out.append("#[derive(%s)]" % ", ".join(keep))
             body = S.src[o:c + 1]
             bm = code_mask(body)
             body2 = "".join(body[k] if bm[k] else (" " if body[k] != "\n" else "\n") for k in range(len(body)))
@@ -678,6 +737,17 @@ def process(template_path, repo, meta):
                 raise ExtractError("unknown option %r" % op)
         if container not in ("-", "") and " for " in container:
             counts["R8"] = counts.get("R8", 0) + 1
+        # R8: associated types of the surrounding trait impl (`type Item = K;`) are substituted for
+        # `Self::Item` in the signature and body (the inherent impl has no associated types)
+        if container not in ("-", "") and " for " in container:
+            _, co, cc = S.find_container(container)
+            blk = strip_noncode(S.src, S.mask, co, cc)
+            for am in re.finditer(r"\btype\s+(\w+)\s*=\s*([^;]+);", blk):
+                pat = r"\bSelf::%s\b" % am.group(1)
+                if re.search(pat, sig) or re.search(pat, body):
+                    sig = re.sub(pat, am.group(2).strip(), sig)
+                    body = re.sub(pat, am.group(2).strip(), body)
+                    counts["R8"] = counts.get("R8", 0) + 1
         body2 = apply_rewrites(body, counts)
         body3 = splice(body2, sections, name)
         out.append(sig + "\n" + spec_text + body3)
